@@ -39,10 +39,21 @@ impl Case {
         match self {
             Self::Lower | Self::Snake => field.to_string(),
             Self::Upper => field.to_ascii_uppercase(),
-            Self::Pascal => field
-                .split('_')
-                .map(|s| s[..1].to_ascii_uppercase() + &s[1..])
-                .collect(),
+            Self::Pascal => {
+                let mut pascal = String::new();
+                let mut capitalize = true;
+                for ch in field.chars() {
+                    if ch == '_' {
+                        capitalize = true;
+                    } else if capitalize {
+                        pascal.push(ch.to_ascii_uppercase());
+                        capitalize = false;
+                    } else {
+                        pascal.push(ch);
+                    }
+                }
+                pascal
+            }
             Self::Camel => {
                 let pascal = Self::Pascal.apply_to_field(field);
                 pascal[..1].to_ascii_lowercase() + &pascal[1..]
@@ -61,10 +72,16 @@ impl Case {
             Self::Lower => variant.to_ascii_lowercase(),
             Self::Upper => variant.to_ascii_uppercase(),
             Self::Camel => variant[..1].to_ascii_lowercase() + &variant[1..],
-            Self::Snake => variant
-                .split(char::is_uppercase)
-                .map(str::to_ascii_lowercase)
-                .collect::<Vec<_>>().join("_"),
+            Self::Snake => {
+                let mut snake = String::new();
+                for (i, ch) in variant.char_indices() {
+                    if i > 0 && ch.is_uppercase() {
+                        snake.push('_');
+                    }
+                    snake.push(ch.to_ascii_lowercase());
+                }
+                snake
+            }
             Self::ScreamingSnake => Self::Snake
                 .apply_to_variant(variant)
                 .to_ascii_uppercase(),
